@@ -18,17 +18,30 @@ NS = ('ip link set lo up; ip link add veth0 type veth peer name veth1; ip addr a
       'ip route add 224.0.0.0/4 dev veth0')
 
 
-def sh(cmd, timeout=1800):
+def sh(cmd, timeout=1500):
+    import signal
+    p = subprocess.Popen(cmd, shell=True, stdout=subprocess.PIPE, stderr=subprocess.STDOUT, text=True, start_new_session=True)
     try:
-        p = subprocess.run(cmd, shell=True, capture_output=True, text=True, timeout=timeout)
-        return p.returncode, p.stdout + p.stderr
+        o, _ = p.communicate(timeout=timeout)
+        return p.returncode, o
     except subprocess.TimeoutExpired:
+        try:
+            os.killpg(p.pid, signal.SIGKILL)
+        except OSError:
+            pass
         return 124, 'timeout'
+
+
+RESULTS = os.path.join(VERIF, 'selftest', 'mutation', 'suite_results.jsonl')
+NEXTEST_CFG = '[profile.default]\nslow-timeout = { period = "20s", terminate-after = 2 }\n'
+BASE = os.environ.get('MUT_BASE', 'HEAD')     # the commit the mutation reports were made at
 
 
 def work(k, items):
     wt = '/tmp/wt/ms%d' % k
-    sh('git -C /repo worktree remove --force %s; git -C /repo worktree add --detach %s HEAD && cp /repo/Cargo.lock %s/' % (wt, wt, wt))
+    sh('git -C /repo worktree remove --force %s; git -C /repo worktree add --detach %s %s && cp /repo/Cargo.lock %s/' % (wt, wt, BASE, wt))
+    os.makedirs(os.path.join(wt, '.config'), exist_ok=True)
+    open(os.path.join(wt, '.config', 'nextest.toml'), 'w').write(NEXTEST_CFG)
     out = []
     for prop, rec in items:
         full = os.path.join(wt, rec['file'])
@@ -66,6 +79,8 @@ def work(k, items):
         src[i] = old
         open(full, 'w').write('\n'.join(src))
         print('%s %s:%d [%s] -> %s %s' % (prop, rec['file'], rec['line'], rec['mutation'], rec['suite'], rec.get('suite_detail', '')[:100]), flush=True)
+        with open(RESULTS, 'a') as f:
+            f.write(json.dumps({'prop': prop, 'file': rec['file'], 'line': rec['line'], 'mutation': rec['mutation'], 'suite': rec['suite'], 'detail': rec.get('suite_detail', '')}) + '\n')
         out.append((prop, rec))
     sh('git -C /repo worktree remove --force %s' % wt)
     return out
@@ -78,20 +93,21 @@ def main():
         jobs = int(sys.argv[sys.argv.index('--jobs') + 1])
     docs = {}
     items = []
+    done = set()
+    if os.path.exists(RESULTS):
+        for l in open(RESULTS):
+            r = json.loads(l)
+            done.add((r['prop'], r['file'], r['line'], r['mutation']))
     for p in props:
         path = os.path.join(VERIF, 'selftest', 'mutation', p + '.json')
         docs[p] = json.load(open(path))
         for rec in docs[p]['survived']:
-            if 'suite' not in rec:
+            if 'suite' not in rec and (p, rec['file'], rec['line'], rec['mutation']) not in done:
                 items.append((p, rec))
     chunks = [items[k::jobs] for k in range(jobs)]
     with ThreadPoolExecutor(jobs) as ex:
         list(ex.map(lambda kc: work(*kc), enumerate(chunks)))
-    for p in props:
-        json.dump(docs[p], open(os.path.join(VERIF, 'selftest', 'mutation', p + '.json'), 'w'), indent=1)
-        s = docs[p]['survived']
-        print('%s: %d survivors: %d pass the suite, %d fail it, %d other' % (p, len(s), sum(1 for r in s if r.get('suite') == 'pass'), sum(1 for r in s if r.get('suite') == 'fail'),
-                                                                          sum(1 for r in s if r.get('suite') not in ('pass', 'fail'))))
+    print('done; results in', RESULTS)
 
 
 if __name__ == '__main__':
